@@ -3,6 +3,7 @@ package props
 import (
 	"fmt"
 	"go/ast"
+	"go/token"
 	"go/types"
 	"strings"
 
@@ -142,6 +143,7 @@ func runC06(p *core.Program, r *core.Report) {
 	c06SingleWriter(p, r, t)
 	c06CloseOnError(p, r, t)
 	c06ErrorVisible(p, r)
+	c06FlushError(p, r)
 	c06Fifo(p, r)
 }
 
@@ -285,8 +287,112 @@ func c06CloseOnError(p *core.Program, r *core.Report, t *types.Named) {
 		}
 		r.Check(ok, "C06.close-on-error", "net/oneway.OneWayTcpClient."+method+" "+okmsg, p.Pos(fi.Decl.Pos()), okmsg, bad)
 	}
-	chk("Close", "conn.Close()&conn=nil", "closes and forgets the connection", "Close() does not both close the socket and forget it: send() would keep using a dead connection")
-	chk("Connect", "conn=client.(*net.TCPConn)&wr=bufio.NewWriterSize(client,", "replaces the writer together with the connection", "Connect() does not create a new buffered writer for the new connection: bytes buffered for the dead connection are sent on the new one")
+	_ = chk
+	// path rules: Close: every path that closes the socket also forgets it; Connect: every path that
+	// installs a new connection also installs a new buffered writer wrapping that same connection
+	connPaths := func(method string) ([]paths.Path, *core.FuncInfo) {
+		fi := p.Method("net/oneway", "OneWayTcpClient", method)
+		if fi == nil || fi.Decl.Body == nil {
+			r.Undec("C06.close-on-error", "net/oneway.OneWayTcpClient."+method, "-", "not found")
+			return nil, nil
+		}
+		info := fi.Pkg.TypesInfo
+		rn := recvName(fi)
+		norm := func(e ast.Expr) string { return strings.ReplaceAll(stripSpaces(types.ExprString(e)), rn+".", "") }
+		rootObj := func(e ast.Expr) types.Object {
+			for {
+				e = ast.Unparen(e)
+				switch v := e.(type) {
+				case *ast.TypeAssertExpr:
+					e = v.X
+					continue
+				case *ast.Ident:
+					return info.ObjectOf(v)
+				}
+				return nil
+			}
+		}
+		ps, _ := paths.Enumerate(fi.Decl.Body, paths.Config{Info: info,
+			Cond: func(c ast.Expr, v bool) *paths.Event {
+				return &paths.Event{Kind: "COND", Arg: condKey(info, norm, c, v), Pos: c.Pos()}
+			},
+			Classify: func(m ast.Node) []paths.Event {
+				var out []paths.Event
+				if as, ok := m.(*ast.AssignStmt); ok && len(as.Lhs) == len(as.Rhs) {
+					for i, l := range as.Lhs {
+						switch norm(l) {
+						case "conn":
+							if norm(as.Rhs[i]) == "nil" {
+								out = append(out, paths.Event{Kind: "FORGET", Pos: as.Pos()})
+							} else {
+								arg := ""
+								if o := rootObj(as.Rhs[i]); o != nil {
+									arg = fmt.Sprint(o.Pos())
+								}
+								out = append(out, paths.Event{Kind: "SETCONN", Arg: arg, Pos: as.Pos()})
+							}
+						case "wr":
+							arg := "?"
+							if call, ok := ast.Unparen(as.Rhs[i]).(*ast.CallExpr); ok && strings.HasPrefix(norm(call.Fun), "bufio.NewWriter") && len(call.Args) >= 1 {
+								if o := rootObj(call.Args[0]); o != nil {
+									arg = fmt.Sprint(o.Pos())
+								}
+							}
+							out = append(out, paths.Event{Kind: "SETWR", Arg: arg, Pos: as.Pos()})
+						}
+					}
+				}
+				ast.Inspect(m, func(k ast.Node) bool {
+					if call, ok := k.(*ast.CallExpr); ok && norm(call.Fun) == "conn.Close" {
+						out = append(out, paths.Event{Kind: "CLOSESOCK", Pos: call.Pos()})
+					}
+					return true
+				})
+				return out
+			}})
+		return ps, fi
+	}
+	if ps, fi := connPaths("Close"); fi != nil {
+		bad := ""
+		closes := 0
+		for _, pa := range ps {
+			if pa.Has("CLOSESOCK") {
+				closes++
+				if !pa.Has("FORGET") {
+					bad = "a path closes the socket but keeps the connection field: send() would keep using a dead connection"
+				}
+			}
+		}
+		if closes == 0 {
+			bad = "Close() never closes the socket"
+		}
+		r.Check(bad == "", "C06.close-on-error", "net/oneway.OneWayTcpClient.Close closes and forgets the connection", p.Pos(fi.Decl.Pos()), "closes and forgets the connection", bad)
+	}
+	if ps, fi := connPaths("Connect"); fi != nil {
+		bad := ""
+		sets := 0
+		for _, pa := range ps {
+			for _, e := range pa {
+				if e.Kind != "SETCONN" {
+					continue
+				}
+				sets++
+				okW := false
+				for _, w := range pa {
+					if w.Kind == "SETWR" && w.Arg == e.Arg && e.Arg != "" {
+						okW = true
+					}
+				}
+				if !okW && bad == "" {
+					bad = "a path installs a new connection without installing a new buffered writer that wraps it (the old writer still points at the dead connection, or holds bytes buffered for it): after a reconnect nothing is delivered / stale bytes are sent: " + pa.String()
+				}
+			}
+		}
+		if sets == 0 {
+			bad = "Connect() never installs a connection"
+		}
+		r.Check(bad == "", "C06.close-on-error", "net/oneway.OneWayTcpClient.Connect replaces the writer together with the connection", p.Pos(fi.Decl.Pos()), "replaces the writer together with the connection", bad)
+	}
 	if fi := p.Method("net/oneway", "OneWayTcpClient", "send"); fi != nil {
 		ok := false
 		ast.Inspect(fi.Decl.Body, func(n ast.Node) bool {
@@ -298,6 +404,137 @@ func c06CloseOnError(p *core.Program, r *core.Report, t *types.Named) {
 			return true
 		})
 		r.Check(ok, "C06.close-on-error", "net/oneway.OneWayTcpClient.send reconnects", p.Pos(fi.Decl.Pos()), "connects when there is no connection", "send() does not reconnect when the connection was dropped")
+	}
+}
+
+// c06FlushError: the error of the network flush/write must reach the caller. In every function of the
+// client that calls Flush()/Write() on the buffered writer or the connection and has an error result,
+// the path on which that call failed returns a non-nil error: the error value obtained from the call
+// (not a shadowed copy that goes out of scope, not nil).
+func c06FlushError(p *core.Program, r *core.Report) {
+	pk := p.Pkg("net/oneway")
+	n := 0
+	for _, fi := range p.Funcs {
+		if fi.Pkg != pk || fi.Decl.Body == nil || fi.Decl.Type.Results == nil || core.RecvNamed(fi.Obj) == nil {
+			continue
+		}
+		info := fi.Pkg.TypesInfo
+		rn := recvName(fi)
+		norm := func(e ast.Expr) string { return strings.ReplaceAll(stripSpaces(types.ExprString(e)), rn+".", "") }
+		// error variables assigned from a writer/connection operation
+		ioErr := map[types.Object]bool{}
+		ast.Inspect(fi.Decl.Body, func(m ast.Node) bool {
+			as, ok := m.(*ast.AssignStmt)
+			if !ok || len(as.Rhs) != 1 {
+				return true
+			}
+			call, ok := ast.Unparen(as.Rhs[0]).(*ast.CallExpr)
+			if !ok {
+				return true
+			}
+			s := norm(call.Fun)
+			if s != "wr.Flush" && s != "wr.Write" && s != "conn.Write" {
+				return true
+			}
+			for _, l := range as.Lhs {
+				if id, ok := l.(*ast.Ident); ok && id.Name != "_" {
+					if o := info.ObjectOf(id); o != nil && isErrorType(o.Type()) {
+						ioErr[o] = true
+					}
+				}
+			}
+			return true
+		})
+		if len(ioErr) == 0 {
+			continue
+		}
+		// named error result (if any)
+		var namedErr types.Object
+		errIdx := -1
+		i := 0
+		for _, f := range fi.Decl.Type.Results.List {
+			cnt := len(f.Names)
+			if cnt == 0 {
+				cnt = 1
+			}
+			if types.ExprString(f.Type) == "error" {
+				errIdx = i
+				if len(f.Names) == 1 {
+					namedErr = info.Defs[f.Names[0]]
+				}
+			}
+			i += cnt
+		}
+		if errIdx < 0 {
+			continue
+		}
+		n++
+		ps, over := paths.Enumerate(fi.Decl.Body, paths.Config{Info: info,
+			Cond: func(c ast.Expr, v bool) *paths.Event {
+				// err != nil / err == nil on an io error variable
+				if be, ok := ast.Unparen(c).(*ast.BinaryExpr); ok && (be.Op == token.NEQ || be.Op == token.EQL) {
+					if id, ok := ast.Unparen(be.X).(*ast.Ident); ok && ioErr[info.ObjectOf(id)] {
+						if y, ok := ast.Unparen(be.Y).(*ast.Ident); ok && y.Name == "nil" {
+							failed := (be.Op == token.NEQ) == v
+							return &paths.Event{Kind: "IOERR", Arg: fmt.Sprintf("%d=%v", info.ObjectOf(id).Pos(), failed), Pos: c.Pos()}
+						}
+					}
+				}
+				return nil
+			},
+			Classify: func(m ast.Node) []paths.Event {
+				var out []paths.Event
+				if rs, ok := m.(*ast.ReturnStmt); ok {
+					arg := "named"
+					if errIdx < len(rs.Results) {
+						e := ast.Unparen(rs.Results[errIdx])
+						if id, ok := e.(*ast.Ident); ok {
+							if id.Name == "nil" {
+								arg = "nil"
+							} else if o := info.ObjectOf(id); o != nil {
+								arg = fmt.Sprintf("var:%d", o.Pos())
+							}
+						} else {
+							arg = "expr"
+						}
+					} else if len(rs.Results) == 0 && namedErr != nil {
+						arg = fmt.Sprintf("var:%d", namedErr.Pos())
+					}
+					out = append(out, paths.Event{Kind: "RETERR", Arg: arg, Pos: rs.Pos()})
+				}
+				return out
+			}})
+		c := core.FuncName(fi.Obj) + " io error reaches the caller"
+		pos := p.Pos(fi.Decl.Pos())
+		if over {
+			r.Undec("C06.error-visible", c, pos, "too many paths")
+			continue
+		}
+		bad := ""
+		for _, pa := range ps {
+			for _, e := range pa {
+				if e.Kind != "IOERR" || !strings.HasSuffix(e.Arg, "=true") {
+					continue
+				}
+				failedVar := strings.TrimSuffix(e.Arg, "=true")
+				ret := ""
+				for _, x := range pa {
+					if x.Kind == "RETERR" {
+						ret = x.Arg
+					}
+				}
+				switch {
+				case ret == "nil":
+					bad = "after a failed flush/write the function returns nil: a dropped frame is reported as delivered"
+				case strings.HasPrefix(ret, "var:") && ret != "var:"+failedVar:
+					bad = "after a failed flush/write the function returns a different error variable than the one that holds the failure (the failure was stored in a shadowed variable): the caller sees nil and a dropped frame counts as delivered"
+				}
+			}
+		}
+		r.Check(bad == "", "C06.error-visible", c, pos, "the failure of the network operation is what the function returns", bad)
+	}
+	if n == 0 {
+		r.Undec("C06.error-visible", "net/oneway flush/write error", "-", "no function returning the error of a writer/connection operation found")
 	}
 }
 
